@@ -1613,6 +1613,15 @@ class HasRounds(GenericHandler):
         # replace max_desired_rounds
         if max_desired_rounds is None:
             max_desired_rounds = cls.max_desired_rounds
+            if (
+                explicit_min_rounds
+                and max_desired_rounds
+                and max_desired_rounds < subcls.min_desired_rounds
+            ):
+                # an explicit minimum above the inherited maximum: move the maximum
+                # along (on the new subclass), rather than leaving an inverted window
+                # behind -- vary_rounds would trip an assert in _generate_rounds()
+                max_desired_rounds = subcls.max_desired_rounds = subcls.min_desired_rounds
         else:
             if isinstance(max_desired_rounds, str):
                 max_desired_rounds = int(max_desired_rounds)
